@@ -8,7 +8,7 @@ from .. import wire
 from ..explore import Stats, digest, explore_product
 from ..models.cache_model import ident
 from ..models.responder_model import Svc
-from ..scen import Decoded, RandPolicy, make_info
+from ..scen import Decoded, RandPolicy, decoded_trace, make_info
 from ..world import HarnessError, World
 
 ID = "C09"
@@ -83,6 +83,12 @@ def points(tier: str) -> List[Dict[str, Any]]:
                 pts.append({"kind": "instance", "mix": mix, "ttls": "default", "allow": allow, "delay": delay})
     for allow, coop in itertools.product((False, True), repeat=2):
         pts.append({"kind": "twice", "mix": "v4", "ttls": "default", "allow": allow, "coop": coop})
+        # ... a name with capitals (the registry files it under its lower-cased spelling), and a second registration that
+        # starts while the first is still probing (neither has announced anything the other could find in the cache)
+        pts.append({"kind": "twice", "mix": "v4", "ttls": "default", "allow": allow, "coop": coop, "cased": True})
+        for cased in (False, True):
+            pts.append({"kind": "twice", "mix": "v4", "ttls": "default", "allow": allow, "coop": coop, "cased": cased,
+                        "overlap_ms": 100})
     return pts
 
 
@@ -293,17 +299,39 @@ def run_point(p: Dict[str, Any], verbose: bool = False) -> Tuple[Optional[Dict[s
             task = w.spawn(reg(info, allow_name_change=p["allow"]))
         else:  # the same name twice on one instance
             w.advance_to_ms(t0)
-            w.run_coro(_reg_plain(a, info))
-            w.advance(3000)
+            first_result: Dict[str, Any] = {}
+            if p.get("overlap_ms"):
+                async def first() -> None:
+                    try:
+                        await _reg_plain(a, info)
+                        first_result["ok"] = info.name
+                    except Exception as e:  # noqa: BLE001
+                        first_result["exc"] = type(e).__name__
+                w.spawn(first())
+                w.advance(p["overlap_ms"])
+            else:
+                w.run_coro(_reg_plain(a, info))
+                first_result["ok"] = info.name
+                w.advance(3000)
             t0 = w.now_ms
-            second = make_info(desc)
+            second = make_info(Svc(desc.type, desc.name, "h9.local.", desc.port + 1, desc.text, [bytes([10, 0, 0, 9])], []))
             task = w.spawn(reg(second, allow_name_change=p["allow"], cooperating_responders=p["coop"]))
             w.advance(5000)
             names = [i.name.lower() for i in a.zc.registry.async_get_service_infos()]
             if len(names) != len(set(names)):
                 problems.append(f"twice: registry holds {names}")
-            if "ok" in result and result["ok"].lower() == desc.name.lower():
-                problems.append("twice: the same name was registered a second time on one instance")
+            both = [r["ok"].lower() for r in (first_result, result) if "ok" in r]
+            if len(both) != len(set(both)):
+                problems.append(f"twice: the same name was registered a second time on one instance ({both})")
+            # whatever the registry holds under the name, only one description of it may have been announced
+            srvs = set()
+            for d in decoded_trace(w, a.name):
+                if d.is_response and d.multicast:
+                    for r in d.records():
+                        if r[0] == "SRV" and r[1].lower() == desc.name.lower() and r[3] > 0:
+                            srvs.add((r[6], str(r[7]).lower()))
+            if len(srvs) > 1:
+                problems.append(f"twice: the name was announced with two different SRV records {sorted(srvs)}")
             if "ok" not in result and "exc" not in result:
                 problems.append("twice: second registration neither returned nor raised")
             obs = digest((result.get("ok"), result.get("exc")))
